@@ -1,9 +1,13 @@
 """C08 — A gene rule is a Boolean function and its text form is faithful."""
 from contracts import c07_knockout as C
+from contracts import c08_visitors as V
 from props._generic import run_property, replay_with_driver
 
 LEVEL = "other"
 KEYS = ["GPR._eval_gpr", "GPR.eval", "Reaction.functional@getter"]
+# the tree-walking visitor classes (contracts/c08_visitors.py; hook table V.HOOKS: child lists as heap state)
+VISITOR_KEYS = ["_GeneRemover.visit_Name", "_GeneRemover.visit_BoolOp",
+                "GPRWalker.visit_Name", "GPRWalker.visit_BoolOp", "GPR.update_genes", "GPR.genes@getter/proved"]
 
 
 def run(rep):
@@ -14,8 +18,25 @@ def run(rep):
         "regex escaping of identifiers, CPython's parser, to_string, symbolic round trips, ==) is outside the SMT string fragments "
         "that terminate and outside this verifier: exhaustive small-domain enumeration in the bounded driver (all trees with <=4 "
         "leaves over an alphabet covering every identifier class the statement names x spellings x knock-out subsets against an "
-        "independent truth-table evaluator, plus copy/pickle/symbolic round trips, == and remove_genes)."),
-        trusted=["ast.parse / re / sympy (assumed)", "rule trees are finite and acyclic"])
+        "independent truth-table evaluator, plus copy/pickle/symbolic round trips, == and remove_genes). "
+        "Tree-walking visitor classes (ast.NodeVisitor / NodeTransformer, dispatch on the node's class modelled as a case split on its "
+        "kind tag, rule trees as a MUTABLE heap): _GeneRemover.visit_Name / visit_BoolOp (what remove_genes applies to every rule it "
+        "keeps) are proved, by structural induction, to return None only if the old rule is False with the target genes absent, and "
+        "otherwise a well-formed tree that evaluates, for every set K of absent genes, to what the old rule evaluates to with K and "
+        "the target genes absent (precondition: well-formed tree whose and/or nodes have at least one child). GPRWalker.visit_Name / "
+        "visit_BoolOp, GPR.update_genes and the GPR.genes getter are proved to report exactly names(tree), the identifiers of the "
+        "Name nodes occurring in the tree (nothing when the rule has no body); lemma steps: the value of a rule depends only on the "
+        "absent genes among names(tree), and only on the heap below the node. Assumed per visitor class: generic_visit (children "
+        "visited in order / child list replaced by the non-None results; carries the induction hypothesis and the disjointness of "
+        "sibling sub-trees) and the dispatch of visit."),
+        more=[(VISITOR_KEYS, V.HOOKS)], lemmas=V.all_lemmas,
+        trusted=["ast.parse / re / sympy (assumed)", "rule trees are finite and acyclic",
+                 "ast.NodeVisitor.visit dispatches on the node's class name to visit_<Class> or generic_visit (assumed contracts "
+                 "_GeneRemover.visit / GPRWalker.visit whose cases are the proved method contracts)",
+                 "ast.NodeTransformer.generic_visit / ast.NodeVisitor.generic_visit on a BoolOp node of a rule TREE (sibling sub-trees "
+                 "disjoint), including the induction hypothesis for the children (assumed contracts _GeneRemover.generic_visit / "
+                 "GPRWalker.generic_visit)",
+                 "GPRWalker() creates a visitor with an empty gene_set; copy.deepcopy of a set of strings is an equal set"])
 
 
 def replay(payload):
